@@ -505,6 +505,104 @@ func TestVerifC10EventListMemo(t *testing.T) {
 	r.Sample(map[string]any{"H": H, "windows": "all contiguous", "forms": []string{"fresh", "json", "cbor"}, "accumulator_pairs": (H + 1) * (H + 1)})
 }
 
+func TestVerifC10PrependRoutes(t *testing.T) {
+	r := vkit.Start(t, "C10", "prepend-routes", 100*time.Second, 400*time.Second)
+	defer r.Finish()
+	r.Rule = "Update.Prepend fed by event lists that arrive the way receivers obtain them: (a) every pair of transported (JSON, ComputeProduct) windows of older events, in both orders, with and without gaps / overlaps, combined by FlattenEventLists; (b) a single list that was verified and then had one event altered in place; onto every authentic tail [k..H]; non-trivial = distinct (tail, windows, route); oracle: Prepend succeeds => the resulting update is authentic per the independent validator and its cached product equals the product of its events; failure => tail unchanged"
+	rvInstallEnv(t, "C10prepend", r.Seed)
+	sk, pk := rvKeys(32, 5)
+	H := vkit.Pick(6, 8)
+	var es []*big.Int
+	for i := 0; i < H; i++ {
+		es = append(es, rvPrime(2+i))
+	}
+	world := rvNewWorld(sk, pk, es)
+	transport := func(a, b int) *EventList {
+		bts, _ := json.Marshal(NewEventList(c10CopyEvents(world.Events[a : b+1])...))
+		el := &EventList{ComputeProduct: true}
+		if json.Unmarshal(bts, el) != nil {
+			return nil
+		}
+		return el
+	}
+	judge := func(route, desc string, tail *Update, before string, err error, pan bool) {
+		r.Eval()
+		r.Nontrivial(route + "|" + desc)
+		rep := map[string]any{"route": route, "case": desc}
+		if pan {
+			r.Count("panic in Prepend / FlattenEventLists (not success)", 1)
+			return
+		}
+		if err != nil {
+			if fmt.Sprint(len(tail.Events), tail.Events[0].Index) != before {
+				r.Violate("C10|receiver-state-changed-on-rejection|Update.Prepend|"+route, desc, rep)
+			}
+			r.Outcome(route + ":rejected")
+			return
+		}
+		r.Outcome(route + ":accepted")
+		if a, why := c10Authentic(pk, c10Wire(tail).SignedAccumulator, tail.Events); a == nil {
+			r.Violate("C10|Update.Prepend-produced-unauthentic-update|"+route, fmt.Sprintf("%s: Prepend succeeded, result not authentic: %s", desc, why), rep)
+			return
+		}
+		if tail.product != nil {
+			want := big.NewInt(1)
+			for _, e := range tail.Events[int(tail.productFrom-tail.Events[0].Index):] {
+				want.Mul(want, e.E)
+			}
+			if tail.product.Cmp(want) != 0 {
+				r.Violate("C10|Update.Prepend-cached-wrong-product|"+route, desc, rep)
+			}
+		}
+	}
+	for k := 2; k <= H; k++ {
+		if _, mine := r.Next(); !mine {
+			continue
+		}
+		// (a) two transported windows below k
+		for a1 := 0; a1 < k; a1++ {
+			for b1 := a1; b1 < k; b1++ {
+				for a2 := 0; a2 < k; a2++ {
+					for b2 := a2; b2 < k; b2++ {
+						l1, l2 := transport(a1, b1), transport(a2, b2)
+						if l1 == nil || l2 == nil {
+							continue
+						}
+						tail := world.Window(k, H, 0)
+						before := fmt.Sprint(len(tail.Events), tail.Events[0].Index)
+						var err error
+						pan, _ := vkit.Guard(func() {
+							var fl *EventList
+							fl, err = FlattenEventLists([]*EventList{l1, l2})
+							if err == nil {
+								err = tail.Prepend(fl)
+							}
+						})
+						judge("flatten-two-windows", fmt.Sprintf("tail %d..%d, windows %d..%d and %d..%d", k, H, a1, b1, a2, b2), tail, before, err, pan)
+					}
+				}
+			}
+		}
+		// (b) verified list, then one event altered in place, then prepended
+		for a := 0; a < k; a++ {
+			for i := a; i < k; i++ {
+				el := NewEventList(c10CopyEvents(world.Events[a:k])...)
+				if err := el.Verify(world.Accs[k-1]); err != nil {
+					r.Violate("C10|EventList.Verify-rejected-authentic-list|fresh", err.Error(), nil)
+					continue
+				}
+				el.Events[i-a].E = new(big.Int).Add(el.Events[i-a].E, big.NewInt(2))
+				tail := world.Window(k, H, 0)
+				before := fmt.Sprint(len(tail.Events), tail.Events[0].Index)
+				var err error
+				pan, _ := vkit.Guard(func() { err = tail.Prepend(el) })
+				judge("verified-then-altered", fmt.Sprintf("tail %d..%d, list %d..%d with event %d altered after Verify", k, H, a, k-1, i), tail, before, err, pan)
+			}
+		}
+	}
+	r.Sample(map[string]any{"H": H, "routes": []string{"flatten-two-windows", "verified-then-altered"}})
+}
+
 func TestVerifC10HashEqual(t *testing.T) {
 	r := vkit.Start(t, "C10", "hash-equal", 30*time.Second, 120*time.Second)
 	defer r.Finish()
